@@ -129,6 +129,9 @@ func (c *Config) UnmarshalBinary(data []byte) error {
 
 		// handle our own key separately
 		if p.ID == cm.ID {
+			if err := pedersen.ValidateParameters(paillierSecret.Modulus().Modulus, p.S, p.T); err != nil {
+				return fmt.Errorf("config: party %s: %w", p.ID, err)
+			}
 			ps[p.ID] = &Public{
 				ECDSA:    cm.ECDSA.ActOnBase(),
 				ElGamal:  cm.ElGamal.ActOnBase(),
